@@ -776,3 +776,321 @@ theorem rangeCheck_isSome (f : String → α → Option ε) (m : AL α) :
     | none => simpa using ih
 
 end CV.Det
+
+/-! ### `ApplyExtends`: the memoising algorithm computes the denotation, whatever the visit order -/
+namespace CV.Det
+open CV CV.Val
+variable {β : Type}
+
+theorem val_mono (mrg : β → β → β) (m : AL (XSvc β)) : ∀ (k : Nat) (x : String) (r : β),
+    val mrg k m x = some r → val mrg (k + 1) m x = some r := by
+  intro k
+  induction k with
+  | zero => intro x r h; simp [val] at h
+  | succ k ih =>
+    intro x r h
+    rw [val] at h ⊢
+    cases hf : find x m with
+    | none => simp [hf] at h
+    | some e =>
+      obtain ⟨ext, b⟩ := e
+      cases ext with
+      | none => simpa [hf] using h
+      | some ref =>
+        simp only [hf, Option.map_eq_some_iff] at h ⊢
+        obtain ⟨base, hb, rfl⟩ := h
+        exact ⟨base, ih ref base hb, rfl⟩
+
+theorem val_mono' (mrg : β → β → β) (m : AL (XSvc β)) (k j : Nat) (x : String) (r : β)
+    (h : val mrg k m x = some r) : val mrg (k + j) m x = some r := by
+  induction j with
+  | zero => exact h
+  | succ j ih => exact val_mono mrg m (k + j) x r ih
+
+/-- the denotation does not depend on the fuel once it is defined -/
+theorem val_det (mrg : β → β → β) (m : AL (XSvc β)) (k k' : Nat) (x : String) (r r' : β)
+    (h : val mrg k m x = some r) (h' : val mrg k' m x = some r') : r = r' := by
+  have a := val_mono' mrg m k k' x r h
+  have b := val_mono' mrg m k' k x r' h'
+  rw [Nat.add_comm] at b
+  rw [a] at b
+  exact Option.some.inj b
+
+/-- `m` is `m0` in which some services have been replaced by what they denote -/
+def Res (mrg : β → β → β) (m0 m : AL (XSvc β)) : Prop :=
+  ∀ x, find x m = find x m0 ∨ ∃ r k, find x m = some (none, r) ∧ val mrg k m0 x = some r
+
+theorem Res.refl (mrg : β → β → β) (m0 : AL (XSvc β)) : Res mrg m0 m0 := fun _ => .inl rfl
+
+theorem Res.put (mrg : β → β → β) {m0 m : AL (XSvc β)} (h : Res mrg m0 m) (name : String) (r : β) (k : Nat)
+    (hv : val mrg k m0 name = some r) : Res mrg m0 (put name (none, r) m) := by
+  intro x
+  by_cases hx : x = name
+  · subst hx; exact .inr ⟨r, k, find_put_self _ _ _, hv⟩
+  · rw [find_put_ne hx]; exact h x
+
+/-- completeness of the memoising algorithm: if the service denotes `r` (within fuel `k`), resolving it on any
+partially resolved map succeeds with `r` and leaves a partially resolved map -/
+theorem applyOne_complete (mrg : β → β → β) (m0 : AL (XSvc β)) : ∀ (k : Nat) (m : AL (XSvc β)) (name : String) (r : β),
+    Res mrg m0 m → val mrg k m0 name = some r →
+    ∃ m', applyOne mrg k m name = some (m', r) ∧ Res mrg m0 m' := by
+  intro k
+  induction k with
+  | zero => intro m name r _ h; simp [val] at h
+  | succ k ih =>
+    intro m name r hres hv
+    rcases hres name with hsame | ⟨r', k', hfind, hv'⟩
+    · rw [val] at hv
+      rw [applyOne, hsame]
+      cases hf : find name m0 with
+      | none => simp [hf] at hv
+      | some e =>
+        obtain ⟨ext, b⟩ := e
+        cases ext with
+        | none =>
+          simp only [hf, Option.some.injEq] at hv
+          subst hv
+          exact ⟨m, rfl, hres⟩
+        | some ref =>
+          simp only [hf, Option.map_eq_some_iff] at hv
+          obtain ⟨base, hb, rfl⟩ := hv
+          obtain ⟨m1, h1, hres1⟩ := ih m ref base hres hb
+          refine ⟨put name (none, mrg base b) m1, by simp [h1], ?_⟩
+          apply Res.put mrg hres1 name _ (k + 1)
+          rw [val, hf]; simp [hb]
+    · have : r' = r := val_det mrg m0 k' (k + 1) name r' r hv' hv
+      subst this
+      exact ⟨m, by rw [applyOne, hfind], hres⟩
+
+/-- soundness: whatever the memoising algorithm returns on a partially resolved map is the denotation -/
+theorem applyOne_sound (mrg : β → β → β) (m0 : AL (XSvc β)) : ∀ (k : Nat) (m m' : AL (XSvc β)) (name : String) (r : β),
+    Res mrg m0 m → applyOne mrg k m name = some (m', r) →
+    (∃ j, val mrg j m0 name = some r) ∧ Res mrg m0 m' := by
+  intro k
+  induction k with
+  | zero => intro m m' name r _ h; simp [applyOne] at h
+  | succ k ih =>
+    intro m m' name r hres h
+    rw [applyOne] at h
+    rcases hres name with hsame | ⟨r', k', hfind, hv'⟩
+    · rw [hsame] at h
+      cases hf : find name m0 with
+      | none => simp [hf] at h
+      | some e =>
+        obtain ⟨ext, b⟩ := e
+        cases ext with
+        | none =>
+          simp only [hf, Option.some.injEq, Prod.mk.injEq] at h
+          obtain ⟨rfl, rfl⟩ := h
+          exact ⟨⟨1, by rw [val, hf]⟩, hres⟩
+        | some ref =>
+          simp only [hf] at h
+          cases h1 : applyOne mrg k m ref with
+          | none => simp [h1] at h
+          | some p =>
+            obtain ⟨m1, base⟩ := p
+            simp only [h1, Option.some.injEq, Prod.mk.injEq] at h
+            obtain ⟨rfl, rfl⟩ := h
+            obtain ⟨⟨j, hj⟩, hres1⟩ := ih m m1 ref base hres h1
+            have hv : val mrg (j + 1) m0 name = some (mrg base b) := by rw [val, hf]; simp [hj]
+            exact ⟨⟨j + 1, hv⟩, Res.put mrg hres1 name _ (j + 1) hv⟩
+    · rw [hfind] at h
+      simp only [Option.some.injEq, Prod.mk.injEq] at h
+      obtain ⟨rfl, rfl⟩ := h
+      exact ⟨⟨k', hv'⟩, hres⟩
+
+/-- resolved entries are never touched again -/
+theorem applyOne_keeps (mrg : β → β → β) : ∀ (k : Nat) (m m' : AL (XSvc β)) (name : String) (r : β),
+    applyOne mrg k m name = some (m', r) → ∀ x e, find x m = some (none, e) → find x m' = some (none, e) := by
+  intro k
+  induction k with
+  | zero => intro m m' name r h; simp [applyOne] at h
+  | succ k ih =>
+    intro m m' name r h x e hx
+    rw [applyOne] at h
+    cases hf : find name m with
+    | none => simp [hf] at h
+    | some en =>
+      obtain ⟨ext, b⟩ := en
+      cases ext with
+      | none =>
+        simp only [hf, Option.some.injEq, Prod.mk.injEq] at h
+        obtain ⟨rfl, _⟩ := h
+        exact hx
+      | some ref =>
+        simp only [hf] at h
+        cases h1 : applyOne mrg k m ref with
+        | none => simp [h1] at h
+        | some p =>
+          obtain ⟨m1, base⟩ := p
+          simp only [h1, Option.some.injEq, Prod.mk.injEq] at h
+          obtain ⟨rfl, _⟩ := h
+          have hne : x ≠ name := by
+            intro heq; subst heq; rw [hf] at hx; cases hx
+          rw [find_put_ne hne]
+          exact ih m m1 ref base h1 x e hx
+
+/-- the value returned for an already resolved service is the memoised one -/
+theorem applyOne_resolved (mrg : β → β → β) (k : Nat) (m m' : AL (XSvc β)) (name : String) (r e : β)
+    (h : applyOne mrg k m name = some (m', r)) (hx : find name m = some (none, e)) : r = e := by
+  cases k with
+  | zero => simp [applyOne] at h
+  | succ k =>
+    rw [applyOne, hx] at h
+    simp only [Option.some.injEq, Prod.mk.injEq] at h
+    exact h.2.symm
+
+theorem applyAll_keeps (mrg : β → β → β) (n : Nat) : ∀ (order : List String) (m mf : AL (XSvc β)),
+    applyAll mrg n order m = some mf → ∀ x e, find x m = some (none, e) → find x mf = some (none, e) := by
+  intro order
+  induction order with
+  | nil => intro m mf h x e hx; simp only [applyAll, Option.some.injEq] at h; subst h; exact hx
+  | cons name rest ih =>
+    intro m mf h x e hx
+    rw [applyAll] at h
+    cases h1 : applyOne mrg n m name with
+    | none => simp [h1] at h
+    | some p =>
+      obtain ⟨m1, b⟩ := p
+      simp only [h1] at h
+      apply ih _ mf h x e
+      by_cases hxe : x = name
+      · subst hxe
+        rw [find_put_self, applyOne_resolved mrg n m m1 x b e h1 hx]
+      · rw [find_put_ne hxe]; exact applyOne_keeps mrg n m m1 name b h1 x e hx
+
+/-- `n` is enough fuel for `m0`: a service that denotes something denotes it within `n` steps
+(true for `n >` the number of services; a chain of distinct references cannot be longer) -/
+def FuelEnough (mrg : β → β → β) (n : Nat) (m0 : AL (XSvc β)) : Prop :=
+  ∀ x r k, val mrg k m0 x = some r → val mrg n m0 x = some r
+
+/-- the loop succeeds iff every visited service denotes something -/
+theorem applyAll_isSome (mrg : β → β → β) (n : Nat) (m0 : AL (XSvc β)) (hf : FuelEnough mrg n m0) :
+    ∀ (order : List String) (m : AL (XSvc β)), Res mrg m0 m →
+    (applyAll mrg n order m).isSome = order.all (fun x => (val mrg n m0 x).isSome) := by
+  intro order
+  induction order with
+  | nil => intro m _; simp [applyAll]
+  | cons name rest ih =>
+    intro m hres
+    rw [applyAll]
+    simp only [List.all_cons]
+    cases hv : val mrg n m0 name with
+    | some r =>
+      obtain ⟨m1, h1, hres1⟩ := applyOne_complete mrg m0 n m name r hres hv
+      simp only [h1, Option.isSome_some, Bool.true_and]
+      exact ih _ (Res.put mrg hres1 name r n hv)
+    | none =>
+      cases h1 : applyOne mrg n m name with
+      | none => simp
+      | some p =>
+        obtain ⟨m1, b⟩ := p
+        obtain ⟨⟨j, hj⟩, _⟩ := applyOne_sound mrg m0 n m m1 name b hres h1
+        rw [hf name b j hj] at hv; cases hv
+
+/-- after the loop, every visited service holds what it denotes, and the map is still a partial resolution of `m0` -/
+theorem applyAll_result (mrg : β → β → β) (n : Nat) (m0 : AL (XSvc β)) :
+    ∀ (order : List String) (m mf : AL (XSvc β)), Res mrg m0 m → applyAll mrg n order m = some mf →
+    Res mrg m0 mf ∧ ∀ x ∈ order, ∃ r j, val mrg j m0 x = some r ∧ find x mf = some (none, r) := by
+  intro order
+  induction order with
+  | nil =>
+    intro m mf hres h
+    simp only [applyAll, Option.some.injEq] at h; subst h
+    exact ⟨hres, fun x hx => by cases hx⟩
+  | cons name rest ih =>
+    intro m mf hres h
+    rw [applyAll] at h
+    cases h1 : applyOne mrg n m name with
+    | none => simp [h1] at h
+    | some p =>
+      obtain ⟨m1, b⟩ := p
+      simp only [h1] at h
+      obtain ⟨⟨j, hj⟩, hres1⟩ := applyOne_sound mrg m0 n m m1 name b hres h1
+      have hres2 := Res.put mrg hres1 name b j hj
+      obtain ⟨hresf, hall⟩ := ih _ mf hres2 h
+      refine ⟨hresf, fun x hx => ?_⟩
+      rcases List.mem_cons.mp hx with rfl | hx
+      · exact ⟨b, j, hj, applyAll_keeps mrg n rest _ mf h x b (find_put_self _ _ _)⟩
+      · exact hall x hx
+
+theorem val_some_find (mrg : β → β → β) (k : Nat) (m : AL (XSvc β)) (x : String) (r : β)
+    (h : val mrg k m x = some r) : (find x m).isSome = true := by
+  cases k with
+  | zero => simp [val] at h
+  | succ k =>
+    rw [val] at h
+    cases hf : find x m with
+    | none => simp [hf] at h
+    | some e => rfl
+
+/-- **`ApplyExtends` does not depend on the order in which Go ranges over the services map**: for two orders that
+both visit every service, the loop fails or succeeds alike, and on success yields the same services map. -/
+theorem applyAll_perm (mrg : β → β → β) (n : Nat) (m0 : AL (XSvc β)) (hf : FuelEnough mrg n m0)
+    {order order' : List String} (hp : order'.Perm order) (hall : ∀ x, (find x m0).isSome = true → x ∈ order) :
+    (applyAll mrg n order' m0).isSome = (applyAll mrg n order m0).isSome ∧
+    ∀ mf mf', applyAll mrg n order m0 = some mf → applyAll mrg n order' m0 = some mf' →
+      ∀ x, find x mf' = find x mf := by
+  constructor
+  · rw [applyAll_isSome mrg n m0 hf order' m0 (Res.refl mrg m0), applyAll_isSome mrg n m0 hf order m0 (Res.refl mrg m0),
+      hp.all_eq]
+  · intro mf mf' h h' x
+    obtain ⟨hres, hv⟩ := applyAll_result mrg n m0 order m0 mf (Res.refl mrg m0) h
+    obtain ⟨hres', hv'⟩ := applyAll_result mrg n m0 order' m0 mf' (Res.refl mrg m0) h'
+    cases hx : find x m0 with
+    | some e =>
+      have hxo : x ∈ order := hall x (by rw [hx]; rfl)
+      obtain ⟨r, j, hj, hfx⟩ := hv x hxo
+      obtain ⟨r', j', hj', hfx'⟩ := hv' x (hp.symm.subset hxo)
+      rw [hfx, hfx', val_det mrg m0 j j' x r r' hj hj']
+    | none =>
+      have none_of : ∀ m, Res mrg m0 m → find x m = none := by
+        intro m hr
+        rcases hr x with hs | ⟨r, k, _, hk⟩
+        · rw [hs, hx]
+        · have := val_some_find mrg k m0 x r hk
+          rw [hx] at this; cases this
+      rw [none_of mf hres, none_of mf' hres']
+
+end CV.Det
+
+namespace CV.Det
+open CV CV.Val
+variable {β : Type}
+
+/-- a sufficient condition for `FuelEnough`: the `extends` references go down along a rank bounded by `n`
+(any acyclic services map has such a rank) -/
+theorem fuelEnough_of_rank (mrg : β → β → β) (n : Nat) (m0 : AL (XSvc β)) (rank : String → Nat)
+    (hdown : ∀ x ref b, find x m0 = some (some ref, b) → rank ref < rank x)
+    (hbound : ∀ x, (find x m0).isSome = true → rank x < n) : FuelEnough mrg n m0 := by
+  have key : ∀ k x r, val mrg k m0 x = some r → val mrg (rank x + 1) m0 x = some r := by
+    intro k
+    induction k with
+    | zero => intro x r h; simp [val] at h
+    | succ k ih =>
+      intro x r h
+      rw [val] at h ⊢
+      cases hf : find x m0 with
+      | none => simp [hf] at h
+      | some e =>
+        obtain ⟨ext, b⟩ := e
+        cases ext with
+        | none => simpa [hf] using h
+        | some ref =>
+          simp only [hf, Option.map_eq_some_iff] at h ⊢
+          obtain ⟨base, hb, rfl⟩ := h
+          have h1 := ih ref base hb
+          have hlt := hdown x ref b hf
+          have : rank ref + 1 + (rank x - (rank ref + 1)) = rank x := by omega
+          have h2 := val_mono' mrg m0 (rank ref + 1) (rank x - (rank ref + 1)) ref base h1
+          rw [this] at h2
+          exact ⟨base, h2, rfl⟩
+  intro x r k h
+  have h1 := key k x r h
+  have hb := hbound x (val_some_find mrg k m0 x r h)
+  have : rank x + 1 + (n - (rank x + 1)) = n := by omega
+  have h2 := val_mono' mrg m0 (rank x + 1) (n - (rank x + 1)) x r h1
+  rw [this] at h2
+  exact h2
+
+end CV.Det
